@@ -282,5 +282,96 @@ func boundedHeaderModelCheck(w *World, c *Checker, lay []leafField, total int) {
 		rec["result"] = "the native run produced no verdict"
 		c.Undecided = append(c.Undecided, "bounded header-model check did not run: "+tailStr(out, 400))
 	}
-	c.Extra["bounded_checks"] = []interface{}{rec}
+	c.Extra["bounded_checks"] = []interface{}{rec, boundedHeaderReparseCheck(w, c)}
+}
+
+// boundedHeaderReparseCheck: a second native stand-in that uses the PUBLIC functions only, so it still compiles when
+// the reflection helpers are reshaped. ROM.ReadHeader parses into the Header the ROM already holds; lemma
+// RomReadHeaderWindow proves (through the helper model) that the result equals a parse into a fresh Header. Here the
+// real Header.ReadHeader is run natively: image A is parsed into h, then image B into the same h, and the result
+// must equal B parsed into a zero Header — for 256 pseudo-random image pairs in each of the 9 combinations of header
+// versions (1, 2, 3) of A and B. BOUNDED: 2304 pairs; reported separately, never counted as discharged.
+func boundedHeaderReparseCheck(w *World, c *Checker) map[string]interface{} {
+	src := `package snes
+
+import (
+	"bytes"
+	"fmt"
+	"math/rand"
+	"testing"
+)
+
+func snesvcSetVer(img []byte, v int) {
+	switch v {
+	case 3:
+		img[0x2a] = 0x33
+	case 2:
+		img[0x24] = 0
+		if img[0x2a] == 0x33 {
+			img[0x2a] = 0x34
+		}
+	default:
+		if img[0x2a] == 0x33 {
+			img[0x2a] = 0x34
+		}
+		if img[0x24] == 0 {
+			img[0x24] = 0x20
+		}
+	}
+}
+
+func TestSnesvcHdrReparse(t *testing.T) {
+	r := rand.New(rand.NewSource(20260928))
+	n := 0
+	for i := 0; i < 256; i++ {
+		for va := 1; va <= 3; va++ {
+			for vb := 1; vb <= 3; vb++ {
+				a := make([]byte, 80)
+				b := make([]byte, 80)
+				r.Read(a)
+				r.Read(b)
+				snesvcSetVer(a, va)
+				snesvcSetVer(b, vb)
+				var h, f Header
+				e1 := h.ReadHeader(bytes.NewReader(a))
+				e2 := h.ReadHeader(bytes.NewReader(b))
+				e3 := f.ReadHeader(bytes.NewReader(b))
+				n++
+				if e1 != nil || e2 != nil || e3 != nil {
+					fmt.Printf("SNESVC_REPARSE FAIL first=%x second=%x errors %v %v %v\n", a, b, e1, e2, e3)
+					return
+				}
+				if h != f || h.HeaderVersion() != vb {
+					fmt.Printf("SNESVC_REPARSE FAIL first=%x second=%x reused Header %+v (version %d), fresh Header %+v (version %d), image version %d\n", a, b, h, h.HeaderVersion(), f, f.HeaderVersion(), vb)
+					return
+				}
+			}
+		}
+	}
+	fmt.Printf("SNESVC_REPARSE OK %d\n", n)
+}
+`
+	out, _ := runOverlayTest(w, repoPath, src, "^TestSnesvcHdrReparse$")
+	rec := map[string]interface{}{"what": "Header.ReadHeader into a Header that already holds another image's fields equals a parse into a zero Header (public functions only)", "kind": "bounded",
+		"bound": "2304 pairs of pseudo-random 80-byte images (fixed seed): 256 for each combination of header versions 1/2/3 of the first and the second image", "how": "real functions run natively, test injected with go test -overlay"}
+	switch {
+	case strings.Contains(out, "SNESVC_REPARSE OK"):
+		rec["result"] = "agrees on every pair tried"
+	case strings.Contains(out, "SNESVC_REPARSE FAIL"):
+		line := out[strings.Index(out, "SNESVC_REPARSE FAIL"):]
+		if i := strings.IndexByte(line, '\n'); i > 0 {
+			line = line[:i]
+		}
+		rec["result"] = line
+		dir := "/verif/replays/" + c.Prop
+		os.MkdirAll(dir, 0o755)
+		path := dir + "/snes.Header.ReadHeader-bounded-reparse.json"
+		data, _ := json.MarshalIndent(map[string]interface{}{"property": c.Prop, "obligation": "snes.Header.ReadHeader#bounded-reparse-equals-fresh-parse", "kind": "bounded", "confirmed": true, "failing_input_and_reason": line}, "", " ")
+		os.WriteFile(path, data, 0o644)
+		c.Violations = append(c.Violations, fmt.Sprintf("VIOLATION property=%s replay=%s obligation=snes.Header.ReadHeader#bounded-reparse-equals-fresh-parse", c.Prop, path))
+	default:
+		rec["result"] = "the native run produced no verdict"
+		c.Undecided = append(c.Undecided, "bounded header-reparse check did not run: "+tailStr(out, 400))
+	}
+	return rec
 }
